@@ -1611,7 +1611,9 @@ def consecutive_rank(repo, col, R):
         raise AnalysisError("remap_to_consecutive has no return")
     uq = T.find(r, lambda x: x.op == "mcall" and x.name == "unique")
     inv = uq is not None and uq.kw.get("return_inverse") is not None and uq.kw["return_inverse"].op == "const" and uq.kw["return_inverse"].name is True
-    is_inverse = inv and T.find(r, lambda x: x.op == "item" and x.name == 1 and x.args[0] is uq) is not None
+    only_inv = uq is not None and not any(k_ in uq.kw for k_ in ("return_index", "return_counts"))   # (values, inverse): inverse is entry 1
+    is_inverse = inv and only_inv and T.find(r, lambda x: (x.op == "item" and x.name == 1 and x.args[0] is uq) or
+                                             (x.op == "sub" and x.args[0] is uq and x.args[1].op == "const" and x.args[1].name in (1, -1))) is not None
     first_seen = T.find(r, lambda x: x.op == "mcall" and x.name in ("factorize",)) is not None
     alt_sorted = T.find(r, lambda x: x.op == "mcall" and x.name == "searchsorted") is not None
     col.add(R, fi, "remap_to_consecutive numbers the values by their rank in sorted order",
